@@ -270,6 +270,8 @@ func selOracle(c *selCase, sv *selServer, outcome string) []string {
 	}
 	single := len(sv.st) == 1
 	allAtEnd := true
+	hintGoneLegit := false // some LL stream really lost its hint (playlist without hint and without ENDLIST)
+	var llEnded []int      // LL streams that received an ENDLIST playlist without hint
 	if len(sv.otherLog) != 0 {
 		bad = append(bad, fmt.Sprintf("C11: request for a URL no playlist advertised: %s", sv.otherLog[0].url))
 	}
@@ -307,16 +309,18 @@ func selOracle(c *selCase, sv *selServer, outcome string) []string {
 		}
 		view := first // playlist returned by the most recent playlist fetch
 		if ll {
-			// hint of each successive playlist, playlist fetch in between, delta iff advertised at first
+			// hint of each successive playlist, playlist fetch in between, delta iff advertised at first;
+			// a reloaded playlist without hint ends the loop: end of stream if it carries ENDLIST, error otherwise
 			expectHint := true
+			llAtEnd, llGone := false, false
 			for ; pos < len(log); pos++ {
 				e := log[pos]
+				if llAtEnd || llGone {
+					fail(i, "request %s after a playlist without preload hint", e.url)
+					break
+				}
 				if expectHint {
 					h := view.Hint
-					if h == nil {
-						fail(i, "request %s after a playlist without preload hint", e.url)
-						break
-					}
 					hs := uint64(0)
 					if h.Start != nil {
 						hs = *h.Start
@@ -333,16 +337,33 @@ func selOracle(c *selCase, sv *selServer, outcome string) []string {
 					if e.skip != wantSkip {
 						fail(i, "playlist fetch with _HLS_skip=%s, expected %s (CAN-SKIP-UNTIL in the first playlist)", e.skip, wantSkip)
 					}
-					if e.view == nil {
-						break // exhausted
+					if e.view == nil || !e.served {
+						break // exhausted, or never answered (held at the gate when the client ended)
 					}
 					view = e.view
+					if view.Hint == nil {
+						if view.End {
+							llAtEnd = true
+						} else {
+							llGone = true
+						}
+					}
 				}
 				expectHint = !expectHint
 			}
-			allAtEnd = false
-			if outcome == "eos" {
-				fail(i, "ErrClientEOS although the stream is in Low-Latency mode")
+			if llGone {
+				hintGoneLegit = true
+			}
+			if llAtEnd {
+				llEnded = append(llEnded, i)
+			} else {
+				allAtEnd = false
+				if outcome == "eos" {
+					fail(i, "ErrClientEOS although the Low-Latency stream has not reached an ENDLIST playlist without preload hint")
+				}
+			}
+			if single && llGone && outcome != "err:hintgone" {
+				fail(i, "the preload hint disappeared from a playlist without ENDLIST but Wait() gave %s", outcome)
 			}
 			continue
 		}
@@ -410,8 +431,8 @@ func selOracle(c *selCase, sv *selServer, outcome string) []string {
 				if e.skip != "-" {
 					fail(i, "delta update requested outside Low-Latency mode")
 				}
-				if e.view == nil {
-					break // exhausted (404 or held)
+				if e.view == nil || !e.served {
+					break // exhausted (404 or held), or never answered
 				}
 				view = e.view
 				afterPlaylist = true
@@ -444,7 +465,14 @@ func selOracle(c *selCase, sv *selServer, outcome string) []string {
 			fail(i, "ErrClientEOS before the last segment of an ENDLIST playlist was fetched")
 		}
 	}
-	if allAtEnd && outcome != "eos" {
+	if outcome == "err:hintgone" && !hintGoneLegit {
+		if len(llEnded) > 0 {
+			// the defect F28: the Low-Latency loop has no end-of-stream path
+			bad = append(bad, fmt.Sprintf("F28-ll-endlist-no-eos: C11: stream %d: Low-Latency stream received an ENDLIST playlist without preload hint (the stream is over) but the client failed with \"preload hint disappeared\" instead of ending; ErrClientEOS is never reached", llEnded[0]))
+		} else {
+			bad = append(bad, "C11: \"preload hint disappeared\" although every Low-Latency playlist carried a hint")
+		}
+	} else if allAtEnd && outcome != "eos" {
 		bad = append(bad, "C11: every stream fetched the last segment of an ENDLIST playlist but Wait() gave "+outcome)
 	}
 	return bad
@@ -711,7 +739,7 @@ func (g *selStreamGen) traditional(polls int, tags *[]string) []*selView {
 	return views
 }
 
-func (g *selStreamGen) lowLatency(polls int, tags *[]string) []*selView {
+func (g *selStreamGen) lowLatency(polls int, forceEnd bool, tags *[]string) []*selView {
 	r := g.r
 	var views []*selView
 	msn := selPickMSN(r)
@@ -724,6 +752,23 @@ func (g *selStreamGen) lowLatency(polls int, tags *[]string) []*selView {
 	gone := -1
 	if r.Intn(3) == 0 {
 		gone = 1 + r.Intn(polls)
+	}
+	// end of the stream: ENDLIST appears at poll endAt (>= 1; the first playlist must carry a hint, or the
+	// stream would not be a Low-Latency one); the ENDLIST playlist has no hint (the normal end), or it still
+	// advertises one and only the following playlist drops it
+	endAt, endWithHint := -1, false
+	if forceEnd || r.Intn(2) == 0 {
+		endAt = 1 + r.Intn(polls)
+		if forceEnd && endAt >= polls {
+			endAt = polls - 1
+			if endAt < 1 {
+				endAt, polls = 1, 2
+			}
+		}
+		endWithHint = r.Intn(3) == 0
+		if forceEnd {
+			gone = -1
+		}
 	}
 	hrange := r.Intn(3)
 	n := 1 + r.Intn(4)
@@ -751,7 +796,13 @@ func (g *selStreamGen) lowLatency(polls int, tags *[]string) []*selView {
 			sc = "-"
 		}
 		v := &selView{MSN: msn, Type: "none", SC: sc, Map: mp, Segs: g.window(msn, n)}
-		if p != gone {
+		ended := endAt >= 0 && p >= endAt
+		v.End = ended
+		noHint := p == gone
+		if ended && !(endWithHint && p == endAt) {
+			noHint = true
+		}
+		if !noHint {
 			h := g.res(fmt.Sprintf("part%d.mp4", p), false, true)
 			switch hrange {
 			case 1:
@@ -775,8 +826,15 @@ func (g *selStreamGen) lowLatency(polls int, tags *[]string) []*selView {
 	} else {
 		*tags = append(*tags, "ll:no-skip")
 	}
-	if gone >= 0 && gone < polls {
+	if gone >= 0 && gone < polls && !(endAt >= 0 && endAt <= gone) {
 		*tags = append(*tags, "ll:hint-disappears")
+	}
+	if endAt >= 0 && endAt < polls && !(gone >= 0 && gone < endAt) {
+		if endWithHint {
+			*tags = append(*tags, "ll:endlist-with-hint-then-without")
+		} else {
+			*tags = append(*tags, "ll:endlist-without-hint")
+		}
 	}
 	return views
 }
@@ -849,6 +907,10 @@ func (selectSlice) Gen(r *rand.Rand, _ int, tier string) ([]string, []string) {
 	if tier == "thorough" && r.Intn(8) == 0 {
 		maxPolls = 40
 	}
+	allLL := r.Intn(12) == 0
+	if allLL {
+		tags = append(tags, "all-streams-ll-ending")
+	}
 	for sid := 0; sid < nstreams; sid++ {
 		s := &selStream{ID: sid, Exh: "fail"}
 		if r.Intn(10) < 3 {
@@ -891,8 +953,12 @@ func (selectSlice) Gen(r *rand.Rand, _ int, tier string) ([]string, []string) {
 		polls := 1 + r.Intn(maxPolls)
 		mode := r.Intn(10)
 		switch {
+		case allLL:
+			// every rendition is a Low-Latency stream that ends (at its own poll): ErrClientEOS
+			s.Views = g.lowLatency(polls, true, &tags)
+			tags = append(tags, "mode:ll")
 		case mode < 2:
-			s.Views = g.lowLatency(polls, &tags)
+			s.Views = g.lowLatency(polls, false, &tags)
 			tags = append(tags, "mode:ll")
 		case nstreams > 1 && mode < 6:
 			s.Views = g.steady(polls, &tags)
@@ -993,6 +1059,25 @@ func (selectSlice) Corpus() [][]string {
 		{msn: 0, n: 2, sc: "b1s1", hint: 0}, {msn: 0, n: 2, sc: "b1s0", hint: 1}, {msn: 1, n: 2, sc: "-", hint: 2}, {msn: 1, n: 2, sc: "b1s1", hint: nh}})))
 	out = append(out, one("fmp4", selCorpusStream(0, "fmp4", "hold", 0, []selCorpusView{
 		{msn: 0, n: 2, sc: "b1s0", hint: 0}, {msn: 0, n: 2, sc: "b1s1", hint: 1}, {msn: 1, n: 2, sc: "b1s1", hint: 2}})))
+	// fix-F28: a Low-Latency stream ends — ENDLIST playlist without preload hint ⇒ ErrClientEOS
+	out = append(out, one("fmp4", selCorpusStream(0, "fmp4", "fail", 0, []selCorpusView{
+		{msn: 0, n: 2, sc: "b1s0", hint: 0}, {msn: 0, n: 2, sc: "b1s0", hint: 1}, {msn: 1, n: 2, sc: "b1s0", hint: 2},
+		{msn: 1, n: 3, sc: "b1s0", end: true, hint: nh}, {msn: 1, n: 3, sc: "b1s0", end: true, hint: nh}})))
+	// … the ENDLIST playlist still advertises a hint (it is fetched), the next one does not
+	out = append(out, one("ts", selCorpusStream(0, "ts", "hold", 0, []selCorpusView{
+		{msn: 4, n: 1, sc: "b1s1", hint: 0}, {msn: 4, n: 2, sc: "b1s1", end: true, hint: 1}, {msn: 4, n: 2, sc: "b1s1", end: true, hint: nh}})))
+	// … two Low-Latency renditions ending at different polls
+	{
+		c := &selCase{HasCfg: true, Top: "multi", Cont: "fmp4", MURL: "http://origin.test/c/master.m3u8"}
+		c.Streams = append(c.Streams, selCorpusStream(0, "fmp4", "fail", 0, []selCorpusView{
+			{msn: 0, n: 2, sc: "b1s0", hint: 0}, {msn: 0, n: 2, sc: "b1s0", hint: 1}, {msn: 0, n: 2, sc: "b1s0", hint: 2}, {msn: 0, n: 3, sc: "b1s0", end: true, hint: nh}}))
+		c.Streams = append(c.Streams, selCorpusStream(1, "fmp4", "fail", 0, []selCorpusView{
+			{msn: 7, n: 2, sc: "b1s0", hint: 0}, {msn: 7, n: 3, sc: "b1s0", end: true, hint: nh}}))
+		for _, s := range c.Streams {
+			s.Raw = fmt.Sprintf("s%d/index.m3u8", s.ID)
+		}
+		out = append(out, c.ops())
+	}
 	// CAN-BLOCK-RELOAD without a hint and CAN-SKIP-UNTIL without blocking reload: traditional loop, never a delta
 	out = append(out, one("ts", selCorpusStream(0, "ts", "fail", 0, []selCorpusView{
 		{msn: 0, n: 3, sc: "b1s1", hint: nh}, {msn: 1, n: 3, sc: "b1s1", hint: nh}})))
